@@ -47,6 +47,9 @@ def classify_hfail(line):
         return "copy-keeps-source-type"
     # an element hangs below a parent that lists its name with another DATATYPE (moved / copied there, the stored type is kept):
     # the loader reads everything below it with the other type.  Order failures are not excused (the order oracle reads the stored type).
+    # make_unique_item_name (move / copy into a place where the name is taken) appends _<n> without checking the length limit
+    if kind == "warning:StringValueTooLong" and "item-name-over-length" in causes:
+        return "unique-name-exceeds-max-length"
     if kind == "warning:RequiredSubelementMissing" and "short-name-not-first" in causes:
         return "insert-before-short-name"
     if "stored-type-mismatch" in causes and (kind.startswith("warning:") or kind == "reload-content-differs"):
@@ -67,6 +70,8 @@ def classify_xattach(line):
         return None
     if probs == ["reload-warning:LOAD-ERROR:OverlappingDataError"] and "cause:duplicate-path" in causes:
         return "duplicate-path-unloadable"
+    if probs == ["reload-warning:StringValueTooLong"] and "cause:item-name-over-length" in causes:
+        return "unique-name-exceeds-max-length"
     if f.get("dt") == "differs" and f.get("stored") != f.get("c2"):
         return "move-keeps-source-type"
     return None
@@ -345,6 +350,8 @@ def classify_xver(line):
     # C13's class: an enumeration value as ELEMENT TEXT is copied unchecked
     if f.get("item", "").startswith("cdenum:") and f.get("inside") == "0" and probs == ["reload-warning:EnumItemVersionError"]:
         return "copy-enum-text-unfiltered"
+    if probs == ["reload-warning:StringValueTooLong"] and "cause:item-name-over-length" in causes:
+        return "unique-name-exceeds-max-length"
     if "cause:stored-type-mismatch" in causes:
         return "copy-keeps-source-type"
     # create_copied_sub_element_at accepts a position in front of the SHORT-NAME of an identifiable element with MIXED content
@@ -539,7 +546,8 @@ def run(tier, seed):
                                  "C07_order_histories": "U (side condition single_version v ops, v <= LATEST)", "C07_order_histories_real": "F+U",
                                  "C07_world_check_sound": "U", "C07_api_built_reloads": "U (hypothesis: the boolean checker world_checkb answers true)",
                                  "C07_api_built_reloads_example": "F (non-vacuity: checker evaluates to true on a history-built world over the real tables)",
-                                 "C07_ordered_short_first": "U", "C07_named_nonseq_real": "F"}})
+                                 "C07_ordered_short_first": "U", "C07_named_nonseq_real": "F",
+                                 "C07_unique_name_too_long_refuted": "F-witness", "C07_unique_name_valid_when_short": "U"}})
 
 
 def replay(path):
